@@ -79,6 +79,17 @@ def representatives(kind, rnd):
         add("session-garbage", True, body=GOOD % (2, 2), headers={"Mcp-Session-Id": "x" * 9000})
     for b in ('{"jsonrpc":"2.0","id":99,"result":{}}', '{"jsonrpc":"2.0","id":"never","result":{"roots":[]}}', '{"jsonrpc":"2.0","id":1.5,"result":null}'):
         add("stray-response", False, body=b)
+    # answers to requests that were never sent, with ids of every JSON type
+    for i in ('[1,2]', '{"a":1}', 'true', 'null', '[[]]', '1e400'):
+        add("stray-response", False, body='{"jsonrpc":"2.0","id":%s,"result":{"roots":[]}}' % i)
+        add("stray-error", False, body='{"jsonrpc":"2.0","id":%s,"error":{"code":-32000,"message":"x"}}' % i)
+    # list requests with a cursor: well-formed ones that point beyond the end, and malformed ones
+    import base64 as _b64
+    for m in ("tools/list", "prompts/list", "resources/list", "resources/templates/list"):
+        for cur in ("5000", "100", "1", "9223372036854775807", "18446744073709551616", "-1", "abc", ""):
+            add("cursor", True, body=json.dumps({"jsonrpc": "2.0", "id": 61, "method": m, "params": {"cursor": _b64.b64encode(cur.encode()).decode()}}))
+        add("cursor", True, body=json.dumps({"jsonrpc": "2.0", "id": 62, "method": m, "params": {"cursor": "%%%not-base64"}}))
+        add("cursor", True, body=json.dumps({"jsonrpc": "2.0", "id": 63, "method": m, "params": {"cursor": 7}}))
     add("stray-error", False, body='{"jsonrpc":"2.0","id":98,"error":{"code":-32000,"message":"x"}}')
     add("stray-error", False, body='{"jsonrpc":"2.0","id":98,"error":"not-an-object"}')
     add("notification-unknown", False, body='{"jsonrpc":"2.0","method":"notifications/verif-unknown","params":{"a":[1]}}')
